@@ -522,7 +522,7 @@ def run(ctx):
     # ---- all ordered pairs of the alphabet x 9 operators
     pairs = [(a, b) for a in A for b in A]
     impl = impl_pairs(ctx, pairs)
-    rows = ctx.run_model(udef, ['map (fun b => %s %s b) U' % (OPS9, a.coq) for a in A], shard_size=max(1, n // 16 + 1), tag='pairs')
+    rows = ctx.run_model(udef, ['map (fun b => %s %s b) U' % (OPS9, a.coq) for a in A], shard_size=max(1, n // 16 + 1), tag='pairs%d' % os.getpid())
     table = {(i, j): impl[i * n + j] for i in range(n) for j in range(n)}
     model = {(i, j): rows[i][j] for i in range(n) for j in range(n)}
     check_pairs(ctx, [(A[i], A[j], (i, j), (j, i)) for i in range(n) for j in range(n)], table, model, 'alphabet pair:')
@@ -549,7 +549,7 @@ def run(ctx):
         tset += [t for t in itertools.product(range(n), repeat=3) if t not in seen]
     triples = [(A[i], A[j], A[k]) for i, j, k in tset]
     timpl = impl_triples(ctx, triples)
-    tmodel = ctx.run_model(udef + 'Definition u (i : nat) := nth i U VNull.\n', ['%s (u %d) (u %d) (u %d)' % (TRI, i, j, k) for i, j, k in tset], shard_size=max(250, len(tset) // 16 + 1), tag='tri')
+    tmodel = ctx.run_model(udef + 'Definition u (i : nat) := nth i U VNull.\n', ['%s (u %d) (u %d) (u %d)' % (TRI, i, j, k) for i, j, k in tset], shard_size=max(250, len(tset) // 16 + 1), tag='tri%d' % os.getpid())
     check_triples(ctx, triples, timpl, tmodel, 'alphabet triple:')
     ctx.sample({'triple': case_tri(*triples[7]), 'impl': dict(zip(TRI_NAMES, [SHOW[v] for v in timpl[7]]))})
     # ---- random values of each ordered kind: groups of 5, all ordered pairs and triples within a group
@@ -562,7 +562,7 @@ def run(ctx):
         rp += [(a, b) for a in g for b in g]
         rt += [(x, a, b) for x in g for a in g for b in g]
     rimpl = impl_pairs(ctx, rp)
-    rmodel = ctx.run_model(HEADER, ['%s %s %s' % (OPS9, a.coq, b.coq) for a, b in rp], shard_size=max(250, len(rp) // 16 + 1), tag='rpairs')
+    rmodel = ctx.run_model(HEADER, ['%s %s %s' % (OPS9, a.coq, b.coq) for a, b in rp], shard_size=max(250, len(rp) // 16 + 1), tag='rpairs%d' % os.getpid())
     table = {}
     for (a, b), ri in zip(rp, rimpl):
         table[(a.feel, b.feel)] = ri
@@ -571,7 +571,7 @@ def run(ctx):
         model[(a.feel, b.feel)] = rm
     check_pairs(ctx, [(a, b, (a.feel, b.feel), (b.feel, a.feel)) for a, b in rp], table, model, 'random pair:')
     rtimpl = impl_triples(ctx, rt)
-    rtmodel = ctx.run_model(HEADER, ['%s %s %s %s' % (TRI, x.coq, a.coq, b.coq) for x, a, b in rt], shard_size=max(250, len(rt) // 16 + 1), tag='rtri')
+    rtmodel = ctx.run_model(HEADER, ['%s %s %s %s' % (TRI, x.coq, a.coq, b.coq) for x, a, b in rt], shard_size=max(250, len(rt) // 16 + 1), tag='rtri%d' % os.getpid())
     check_triples(ctx, rt, rtimpl, rtmodel, 'random triple:')
     ctx.sample({'random_group': [v.feel for v in groups[-1]]})
     zcov = zoned_section(ctx)
